@@ -93,7 +93,7 @@ def id_lists(draw, min_size=1, max_size=6):
 @st.composite
 def rule_cases(draw):
     ids = draw(id_lists())
-    tree = draw(gprtree.trees(ids, max_fan=4))
+    tree = draw(st.one_of(*[gprtree.trees(ids, max_fan=4)] * 7, gprtree.wide_trees(ids))) if len(ids) >= 2 else draw(gprtree.trees(ids, max_fan=4))
     return {
         "tree": tree,
         "spelling": draw(st.sampled_from(["word", "word", "upper", "sym"])),
